@@ -619,10 +619,11 @@ func c13ModMutateJSON(g *vkit.Rand, sd *c13ModSeed, wit *c13ModWitness) (tree bo
 var c13OddIPs = []string{"", "256.1.1.1", "1.2.3", "1.2.3.4/8", "::", "::1", "2001:db8::1", "::ffff:10.0.0.1", "[::1]", "0.0.0.0", "255.255.255.255", "10.0.0.1", "10.0.0.0", "010.0.0.1", "a", "1.2.3.4.5", "-1.0.0.0", "10.0.0.1:80", "\x00", "1.2.3.4\r"}
 
 // element counts for the meta line of an ip list: small values and values at the
-// int boundaries. Counts between 1e6 and 1e18 are left out on purpose: they are
-// honoured by the loader with an allocation of that many entries, which is a
-// resource question the property statement does not speak about.
-var c13MetaNums = []string{"-1", "0", "1", "2", "3", "1000", "100000", "9223372036854775807", "4611686018427387904", "9223372036854775808", "-9223372036854775808", "1.5", "1e3", "\"3\"", "null"}
+// int boundaries, plus 1e15 and 1e17 (beyond any possible allocation: a loader that
+// trusts them panics in makeslice). Counts between 1e6 and 2^48 are left out on
+// purpose: a loader that honours them allocates that many entries, which would put
+// the machine at risk when the check runs against a tree without the size guard.
+var c13MetaNums = []string{"-1", "0", "1", "2", "3", "1000", "100000", "1000000000000000", "100000000000000000", "9223372036854775807", "4611686018427387904", "9223372036854775808", "-9223372036854775808", "1.5", "1e3", "\"3\"", "null"}
 
 func c13ModMutateText(g *vkit.Rand, sd *c13ModSeed, wit *c13ModWitness) {
 	lines := strings.Split(strings.TrimRight(sd.Text, "\n"), "\n")
@@ -748,7 +749,7 @@ func c13ModCase(r *vkit.Run, x *c13ModCtx, l *c13ModLoader, seeds []*c13ModSeed,
 
 // ------------------------------------------------------------ entry points
 
-const c13ModRule = "MODULE RULE FILES (supersedes the sentence 'Module rule files are covered by another domain' of the rule): loaders = mod_auth_basic.AuthBasicConfLoad, mod_auth_jwt.AuthJWTConfLoad, mod_auth_request.AuthRequestRuleFileLoad, mod_block.ProductRuleConfLoad, mod_block.GlobalIPTableLoad (text ip list), mod_compress.ProductRuleConfLoad, mod_cors.CorsRuleFileLoad, mod_errors.ErrorsConfLoad, mod_header.HeaderConfLoad, mod_markdown.ProductRuleConfLoad, mod_rewrite.ReWriteConfLoad, mod_secure_link.DataLoad, mod_static.StaticConfLoad, mod_static.MimeTypeConfLoad, mod_tag.TagRuleFileLoad, mod_trace.TraceRuleFileLoad, mod_trust_clientip.TrustIPConfLoad, mod_userid.NewConfigFromFile, mod_waf.ProductWafRuleConfLoad, and - their loaders being unexported - mod_redirect, mod_key_log, mod_prison through Module.Init on a private conf root followed by the reload handler the module registers (path=<file>; mod_prison: fresh module per case that has loaded the shipped sample first). mod_geo has no rule file (binary MaxMind database). (acceptance) conf/<mod>/<sample> read from the tree under test and every fenced example of docs/en_us/modules/<mod>/*.md that shows this file (json block with a Config member; for the ip list the unlabelled block of addresses) must load without error, verbatim except for the locations of auxiliary files: \"../conf/X\" -> scratch copy of conf/X, mod_auth_jwt doc KeyFile \"mod_auth_jwt/key_file\" -> scratch file holding the JSON Web Key example of the same page, mod_static doc root \"./\" -> scratch copy of conf/mod_static. A doc example that is not well-formed JSON (typo in the page) does not follow the documented format and is skipped and listed in mod_notes. (totality) per loader N mutated files, seed = sample | doc example | a hand-written seed using every documented/implemented command of the module (mod_rich_seed_*; mutation seeds only, never acceptance-judged): 1-3 structure-aware mutations with the mutator of the core files (null, wrong JSON type, boundary numbers, deleted/duplicated/renamed/added keys, retargeted strings from the file + all modules' command names + parameter values, grown/emptied containers, replaced root) or - 1/3 - a rule-shaped one (Cmd swapped for a command of this or another module or an unknown one, Params resized 0-5, Cond replaced by a documented condition or a non-condition, product added); 1/5 byte-level corruption (truncate, delete byte, stray token, empty, 20000-deep nesting, doubled), 1/40 absent file; ip list: token/line level (odd addresses, reversed and mixed-family pairs, third token, separators, meta line with counts in {-1..100000, int64 boundaries} - counts between 1e6 and 1e18 are honoured by an allocation of that size and are left out, 70000-byte line, binary line, repetition). Refuting event = panic out of the loader (signature panic:<innermost bfe frame>, prefixed with the loader when the frame is in shared code). One evaluation per (loader, file); non-trivial = still well-formed JSON (ip list: any) and different from the seed; distinct = (loader, file content)"
+const c13ModRule = "MODULE RULE FILES: loaders = mod_auth_basic.AuthBasicConfLoad, mod_auth_jwt.AuthJWTConfLoad, mod_auth_request.AuthRequestRuleFileLoad, mod_block.ProductRuleConfLoad, mod_block.GlobalIPTableLoad (text ip list), mod_compress.ProductRuleConfLoad, mod_cors.CorsRuleFileLoad, mod_errors.ErrorsConfLoad, mod_header.HeaderConfLoad, mod_markdown.ProductRuleConfLoad, mod_rewrite.ReWriteConfLoad, mod_secure_link.DataLoad, mod_static.StaticConfLoad, mod_static.MimeTypeConfLoad, mod_tag.TagRuleFileLoad, mod_trace.TraceRuleFileLoad, mod_trust_clientip.TrustIPConfLoad, mod_userid.NewConfigFromFile, mod_waf.ProductWafRuleConfLoad, and - their loaders being unexported - mod_redirect, mod_key_log, mod_prison through Module.Init on a private conf root followed by the reload handler the module registers (path=<file>; mod_prison: fresh module per case that has loaded the shipped sample first). mod_geo has no rule file (binary MaxMind database). (acceptance) conf/<mod>/<sample> read from the tree under test and every fenced example of docs/en_us/modules/<mod>/*.md that shows this file (json block with a Config member; for the ip list the unlabelled block of addresses) must load without error, verbatim except for the locations of auxiliary files: \"../conf/X\" -> scratch copy of conf/X, mod_auth_jwt doc KeyFile \"mod_auth_jwt/key_file\" -> scratch file holding the JSON Web Key example of the same page, mod_static doc root \"./\" -> scratch copy of conf/mod_static. A doc example that is not well-formed JSON (typo in the page) does not follow the documented format and is skipped and listed in mod_notes. (totality) per loader N mutated files, seed = sample | doc example | a hand-written seed using every documented/implemented command of the module (mod_rich_seed_*; mutation seeds only, never acceptance-judged): 1-3 structure-aware mutations with the mutator of the core files (null, wrong JSON type, boundary numbers, deleted/duplicated/renamed/added keys, retargeted strings from the file + all modules' command names + parameter values, grown/emptied containers, replaced root) or - 1/3 - a rule-shaped one (Cmd swapped for a command of this or another module or an unknown one, Params resized 0-5, Cond replaced by a documented condition or a non-condition, product added); 1/5 byte-level corruption (truncate, delete byte, stray token, empty, 20000-deep nesting, doubled), 1/40 absent file; ip list: token/line level (odd addresses, reversed and mixed-family pairs, third token, separators, meta line with counts in {-1..100000, 1e15, 1e17, int64 boundaries} - counts between 1e6 and 2^48 would be honoured with a real allocation of that size by a tree lacking the file-size guard and are left out, 70000-byte line, binary line, repetition). Refuting event = panic out of the loader (signature panic:<innermost bfe frame>, prefixed with the loader when the frame is in shared code). One evaluation per (loader, file); non-trivial = still well-formed JSON (ip list: any) and different from the seed; distinct = (loader, file content)"
 
 func c13Modules(r *vkit.Run) {
 	t0 := time.Now() // reporting only (mod_wall_s); no oracle depends on it
